@@ -566,6 +566,9 @@ func (fc *FnCtx) valUnchanged(env *Env, cur, old Val, what string) *Term {
 // ---------- hints: instances of library lemmas ----------
 
 func (fc *FnCtx) applyHint(s *State, env *Env, h *Hint, where string) {
+	if h.SplitOnly && !fc.splitPass {
+		return
+	}
 	defer func() {
 		if r := recover(); r != nil {
 			if u, ok := r.(unsupported); ok && strings.HasPrefix(string(u), "unknown identifier") {
@@ -583,6 +586,29 @@ func (fc *FnCtx) applyHint(s *State, env *Env, h *Hint, where string) {
 	}
 	if e.Kind != "call" {
 		panic(unsupported("hint must be a lemma instance: " + h.Text))
+	}
+	if e.Name == "bind" && len(e.Args) == 2 && e.Args[0].Kind == "ident" {
+		// bind(g, expr): give the ghost result g its witness value at this program point
+		v := fc.evalSpec(env, e.Args[1])
+		if v.T == nil || v.T.Sort != SInt {
+			panic(unsupported("ghost values must be integers: " + h.Text))
+		}
+		bindIt := func() {
+			if s.ghosts == nil {
+				s.ghosts = map[string]*Term{}
+			}
+			s.ghosts[e.Args[0].Name] = v.T
+		}
+		if guard != nil {
+			// conditional binding: keep the previous value otherwise
+			prev, ok := s.ghosts[e.Args[0].Name]
+			if !ok {
+				prev = fc.fresh("ghost_"+e.Args[0].Name, SInt)
+			}
+			v.T = mkIte(guard, v.T, prev)
+		}
+		bindIt()
+		return
 	}
 	if e.Name == "assert" {
 		// assert(e): prove e here, then use it (a cut)
